@@ -3180,7 +3180,8 @@ MODULES = {
                      + [("CharPartition", None, f) for f in PARTITION_FNS]
                      + [("CharPartition", None, "class_ids"), ("CharPartition", None, "picks"),
                         ("ClassIdIterator", "Iterator", "next"), ("PickIterator", "Iterator", "next")]
-                     + [(None, None, "merge_partitions"), (None, None, "merge_partition_list")],
+                     + [(None, None, "merge_partitions"), (None, None, "merge_partition_list")]
+                     + [("CharPartition", None, "try_from_iter"), ("CharPartition", None, "try_from_list")],
     },
 }
 
